@@ -86,6 +86,13 @@ def gen_strategy(r, cluster, opts, feasible=True):
         hi = tot[n]
         q = r.randint(1, hi) if r.random() < 0.7 else hi
         req[f"{n}:any"] = q
+    if feasible and opts.get("p_id_specific") and r.random() < opts["p_id_specific"]:
+        # the request names one instance of the anchor worker by its id instead of asking for any instance
+        named = [x for x in anchor["resources"] if x["id"] and x["q"] > 0 and f"{x['name']}:any" in req]
+        if named:
+            x = r.choice(named)
+            del req[f"{x['name']}:any"]
+            req[f"{x['name']}:{x['id']}"] = r.randint(1, x["q"])
     if not feasible:
         n = r.choice(names)
         req[f"{n}:any"] = max(worker_totals(w).get(n, 0) for w in workers) + r.randint(1, 2)
@@ -214,6 +221,13 @@ class _GB:
             a_in["probability"] = p
             self.link(c, a_in)
             self.link(a_out, t)
+        if self.budget >= 1 and self.opts.get("p_side_output") and r.random() < self.opts["p_side_output"]:
+            # a side output: one arm also feeds a task that is a sink of the graph (it exists on that arm only)
+            live = [a for i_, a in enumerate(arms) if i_ != empty]
+            if live:
+                out = self.node(in_branch=True)
+                self.link(r.choice(live)[1], out)
+                self.side_outputs = getattr(self, "side_outputs", 0) + 1
         if self.budget >= 1 and not in_branch and r.random() < self.opts.get("p_side_input", 0):
             # an ordinary source task feeding the head of one branch: the head then waits for the
             # conditional *and* for the side input
@@ -469,6 +483,9 @@ def gen_world(seed, profile="greedy", opts=None):
             g["node_order"] = names
     if opts.get("stagger_sources"):
         world["stagger_sources"] = True
+    if opts.get("via_loader") and profile == "greedy":
+        rv = random.Random(f"{seed}:via_loader")
+        world["via_loader"] = {"format": rv.choice(["json", "yaml"]), "terse": rv.random() < 0.4}
     if opts.get("time_scale"):
         scale_world(world, opts["time_scale"])
         world["mixed_units"] = True
@@ -694,9 +711,16 @@ def gen_clockwork_world(seed, opts=None):
         else:
             rel = {"type": "closed_loop", "concurrency": r.choice([1, 2, 4]), "invocations": n, "start": 0}
             rel["concurrency"] = min(rel["concurrency"], n)
+        node_ = {"name": f"G{gi}n0", "children": [], "conditional": False, "terminal": False,
+                 "probability": 1.0, "profile": model}
+        if opts.get("p_short_slo"):
+            rs_ = random.Random(f"{seed}:slo:{gi}")
+            rts_ = sorted(st["runtime"] for st in profiles[model]["strategies"])
+            if rs_.random() < opts["p_short_slo"] and rts_[0] < rts_[-1]:
+                # an SLO the fastest strategy can meet and the slowest cannot, even at the release instant
+                node_["slo"] = rs_.randint(rts_[0], rts_[-1] - 1)
         graphs.append({"name": f"G{gi}", "shape": "single",
-                       "nodes": [{"name": f"G{gi}n0", "children": [], "conditional": False, "terminal": False,
-                                  "probability": 1.0, "profile": model}],
+                       "nodes": [node_],
                        "release": rel,
                        "deadline_variance": r.choice([[0, 0], [0, 50], [0, 100], [50, 200], [100, 400], [0, 300]])})
     flags = default_flags()
